@@ -184,7 +184,8 @@ func c06Run(w *Worker, tape *simrt.Tape) *Outcome {
 	restored := !f.Small && ch(4) == 0
 	fx, err := w.solverFixture(f, builder, slot, restored)
 	if err != nil {
-		o.violate("fixture", "fixture:solver:"+f.Name, "cannot build fixture: "+err.Error())
+		o.probe("fixture_skipped") // the generated program does not compile (e.g. commits to a constant): not a case
+		o.Desc = "skipped: " + err.Error()
 		return o
 	}
 	// the commitment placeholder hint draws entropy in whichever solver task executes it; the
